@@ -25,6 +25,7 @@ func wgModels(ctx *core.Ctx, f func(i int, tm gen.Tagged) bool) {
 	extra := gen.TTUDefectModels()
 	extra = append(extra, gen.InterlockModels()...)
 	extra = append(extra, gen.SameTargetModels()...)
+	extra = append(extra, gen.TuplesetListModels()...)
 	nSpecial := len(extra)
 	extra = append(extra, gen.ThreeRelModels(ctx.Thorough())...)
 	extra = append(extra, gen.NestedModels()...)
@@ -69,7 +70,7 @@ func wgModels(ctx *core.Ctx, f func(i int, tm gen.Tagged) bool) {
 
 const wgRule = "graph-model alphabet: types user, group (terminal), folder {a: [user], b: [group, user:*]}, doc {a, b, p} with a and b ranging over every leaf " +
 	"(direct assignment with 3 (quick) / 11 (thorough) restriction lists incl. wildcards, conditions, usersets of self/other/folder; computed self/other; TTU self/other over p) " +
-	"and every union / intersection / exclusion of two leaves, x 3 tupleset variants p in {[doc],[folder],[doc,folder]}; plus the TTU-defect family, the interlocking-cycles family (direct assignments mixing a terminal type, the relation's own userset and its neighbours' usersets in every order, with and without TTUs; two and three relations), the same-target family (one operator reaching a relation by a rewrite or TTU edge and by a direct userset edge, in both operand orders, with conditions), three-relation models rich in cycles and nested / three-operand rewrites " +
+	"and every union / intersection / exclusion of two leaves, x 3 tupleset variants p in {[doc],[folder],[doc,folder]}; plus the TTU-defect family, the interlocking-cycles family (direct assignments mixing a terminal type, the relation's own userset and its neighbours' usersets in every order, with and without TTUs; two and three relations), the same-target family (one operator reaching a relation by a rewrite or TTU edge and by a direct userset edge, in both operand orders, with conditions), the tupleset-list family (tupleset restricted to every list of 1-3 entries with repetition over {doc, doc with k, folder, folder with k}; TTU alone, under union / intersection, and on a cycle), three-relation models rich in cycles and nested / three-operand rewrites " +
 	"(quick: every 4th). Each model is built under every map-iteration schedule within the budgets: depth-first start orders fully permuted for graphs with <= 5 (quick) / <= 6 (thorough) relation and operator nodes " +
 	"(type and wildcard nodes pinned last there), every single root deviation (quick) / every pair (thorough) otherwise; every single inner-map deviation; thorough: one root x one inner deviation and two inner deviations. "
 
@@ -140,7 +141,11 @@ func wgReplay(cs *wgCase) (*ref.WG, *wgObs) {
 	}
 	pm := ref.ToProto(cs.Model)
 	var o *wgObs
-	rt.Run(cs.Choices, nil, func() { o = wgBuild(pm) })
+	b := graph.NewWeightedAuthorizationModelGraphBuilder()
+	if cs.Earlier != nil {
+		rt.Run(nil, nil, func() { wgBuildOn(b, ref.ToProto(cs.Earlier)) })
+	}
+	rt.Run(cs.Choices, nil, func() { o = wgBuildOn(b, pm) })
 	return rg, o
 }
 
@@ -149,8 +154,11 @@ func wgReplay(cs *wgCase) (*ref.WG, *wgObs) {
 // f10Verdict tells whether the observed verdict is the one the defect model of
 // known finding F10 (edge-wise operands + restart on empty) predicts while the
 // property's reference predicts the other one.
-func c05One(ctx *core.Ctx, tm gen.Tagged, rg *ref.WG, an, anEdge *ref.Analysis, o *wgObs, ch []int, pinned bool) bool {
+func c05One(ctx *core.Ctx, tm gen.Tagged, rg *ref.WG, an, anEdge *ref.Analysis, o *wgObs, ch []int, pinned bool, earlier ...*ref.Model) bool {
 	cs := wgCaseOf(tm, ch, pinned)
+	if len(earlier) > 0 {
+		cs.Earlier = earlier[0]
+	}
 	if o.verdict == "panic" {
 		ctx.Violation("build-panics", fmt.Sprintf("%s: Build panicked: %v", tm.Tag, o.panic), cs, "", fmt.Sprint(o.panic))
 		return false
@@ -215,6 +223,7 @@ func hasMultiEdgeOperand(rg *ref.WG) bool {
 }
 
 func c05Run(ctx *core.Ctx) {
+	defer c05BuilderReuse(ctx)
 	wgModels(ctx, func(i int, tm gen.Tagged) bool {
 		ctx.Eval(1)
 		rg := ref.BuildWG(tm.M)
@@ -241,7 +250,7 @@ func c05Run(ctx *core.Ctx) {
 // c06BuilderReuse: one builder value used for several models in a row ("repeated invocations in one process"):
 // the result for the later model must be what a fresh builder gives. All ordered pairs over a model subset that
 // mixes two- and three-relation models, TTU defects and cyclic models.
-func c06BuilderReuse(ctx *core.Ctx) {
+func reusePool() []gen.Tagged {
 	var pool []gen.Tagged
 	sp := gen.NewGraphSpace(false)
 	for i := 0; i < sp.Size(); i += sp.Size()/40 + 1 {
@@ -259,15 +268,16 @@ func c06BuilderReuse(ctx *core.Ctx) {
 	for i := 0; i < len(il); i += len(il)/10 + 1 {
 		pool = append(pool, il[i])
 	}
-	type fresh struct {
-		rg   *ref.WG
-		dump string
+	tl := gen.TuplesetListModels()
+	for i := 0; i < len(tl); i += len(tl)/8 + 1 {
+		pool = append(pool, tl[i])
 	}
-	fr := make([]fresh, len(pool))
-	for i, tm := range pool {
-		rg := ref.BuildWG(tm.M)
-		fr[i] = fresh{rg, wgDump(rg, wgBuild(ref.ToProto(tm.M)))}
-	}
+	return pool
+}
+
+// forReusePairs builds every ordered pair (earlier, later) of the pool on one builder value and hands the observation of
+// the later build to f.
+func forReusePairs(ctx *core.Ctx, pool []gen.Tagged, f func(i, j int, o *wgObs) bool) {
 	k := 0
 	for i := range pool {
 		for j := range pool {
@@ -277,32 +287,56 @@ func c06BuilderReuse(ctx *core.Ctx) {
 			}
 			ctx.Trans(1)
 			b := graph.NewWeightedAuthorizationModelGraphBuilder()
-			var o *wgObs
-			func() {
-				defer func() {
-					if p := recover(); p != nil {
-						o = &wgObs{panic: p, verdict: "panic"}
-					}
-				}()
-				_, _ = b.Build(ref.ToProto(pool[i].M))
-				g, err := b.Build(ref.ToProto(pool[j].M))
-				o = &wgObs{g: g, err: err, verdict: "accepted"}
-				if err != nil {
-					o.verdict = "rejected"
-				}
-			}()
-			d := o.verdict
-			if o.verdict == "accepted" {
-				d = wgDump(fr[j].rg, o)
-			}
-			if d != fr[j].dump {
-				c := &wgCase{Tag: pool[j].Tag, Model: pool[j].M, Extra: "after building on the same builder: " + pool[i].Tag}
-				ctx.Violation("result-depends-on-earlier-build", fmt.Sprintf("a builder that has built [%s] before gives another result for [%s] than a fresh builder", pool[i].Tag, pool[j].Tag), c, fr[j].dump, d)
+			wgBuildOn(b, ref.ToProto(pool[i].M))
+			if !f(i, j, wgBuildOn(b, ref.ToProto(pool[j].M))) {
 				return
 			}
-			ctx.Flag("c06:builder-reuse")
 		}
 	}
+}
+
+func c06BuilderReuse(ctx *core.Ctx) {
+	pool := reusePool()
+	type fresh struct {
+		rg   *ref.WG
+		dump string
+	}
+	fr := make([]fresh, len(pool))
+	for i, tm := range pool {
+		rg := ref.BuildWG(tm.M)
+		fr[i] = fresh{rg, wgDump(rg, wgBuild(ref.ToProto(tm.M)))}
+	}
+	forReusePairs(ctx, pool, func(i, j int, o *wgObs) bool {
+		d := wgDump(fr[j].rg, o)
+		if d != fr[j].dump {
+			c := &wgCase{Tag: pool[j].Tag, Model: pool[j].M, Extra: "after building on the same builder: " + pool[i].Tag, Earlier: pool[i].M}
+			ctx.Violation("result-depends-on-earlier-build", fmt.Sprintf("a builder that has built [%s] before gives another result for [%s] than a fresh builder", pool[i].Tag, pool[j].Tag), c, fr[j].dump, d)
+			return false
+		}
+		ctx.Flag("c06:builder-reuse")
+		return true
+	})
+}
+
+// c05BuilderReuse: the verdict on a used builder value is the reference's verdict as well.
+func c05BuilderReuse(ctx *core.Ctx) {
+	pool := reusePool()
+	type refv struct {
+		rg     *ref.WG
+		an, ae ref.Analysis
+	}
+	rv := make([]refv, len(pool))
+	for i, tm := range pool {
+		rg := ref.BuildWG(tm.M)
+		ae := *rg.Analyse(ref.EdgeWise)
+		an := *rg.Analyse(ref.OperandWise)
+		rv[i] = refv{rg, an, ae}
+	}
+	forReusePairs(ctx, pool, func(i, j int, o *wgObs) bool {
+		tm := gen.Tagged{Tag: pool[j].Tag + " (on a builder that has built [" + pool[i].Tag + "] before)", M: pool[j].M}
+		ctx.Flag("c05:builder-reuse")
+		return c05One(ctx, tm, rv[j].rg, &rv[j].an, &rv[j].ae, o, nil, false, pool[i].M)
+	})
 }
 
 func c06Run(ctx *core.Ctx) {
@@ -489,12 +523,12 @@ func cloneRefModel(m *ref.Model) *ref.Model {
 func init() {
 	core.Register(&core.Check{
 		ID:        "C05",
-		Rule:      wgRule + "Oracle: reference well-foundedness (rewrite-only cycle, intersection/exclusion on a cycle, TTU conditions, empty intersection, relation without terminal type) on every schedule. states = distinct verdicts, non-trivial = distinct models",
+		Rule:      wgRule + "Oracle: reference well-foundedness (rewrite-only cycle, intersection/exclusion on a cycle, TTU conditions, empty intersection, relation without terminal type) on every schedule; and for every ordered pair over ~100 mixed models built in a row on ONE builder value, the verdict on the later model. states = distinct verdicts, non-trivial = distinct models",
 		Assume:    wgAssume,
 		Technique: "exhaustive exploration of map-iteration schedules (DFS start orders and inner maps) x bounded exhaustive model enumeration against a reference well-foundedness predicate",
 		Run:       c05Run,
 		Finish: func(r *core.Result) error {
-			for _, f := range []string{"map-sites-reached", "c05:accepted", "c05:rejected", "c05:clause:a", "c05:clause:b", "c05:clause:c", "c05:clause:d", "c05:clause:e"} {
+			for _, f := range []string{"map-sites-reached", "c05:accepted", "c05:rejected", "c05:clause:a", "c05:clause:b", "c05:clause:c", "c05:clause:d", "c05:clause:e", "c05:builder-reuse"} {
 				if !r.Flags[f] {
 					return fmt.Errorf("C05: guard %q never exercised", f)
 				}
@@ -509,14 +543,14 @@ func init() {
 			rg, o := wgReplay(&cs)
 			ae := *rg.Analyse(ref.EdgeWise)
 			an := rg.Analyse(ref.OperandWise)
-			c05One(ctx, gen.Tagged{Tag: cs.Tag, M: cs.Model}, rg, an, &ae, o, cs.Choices, cs.Extra == "pinned")
+			c05One(ctx, gen.Tagged{Tag: cs.Tag, M: cs.Model}, rg, an, &ae, o, cs.Choices, cs.Extra == "pinned", cs.Earlier)
 		},
 	})
 	core.Register(&core.Check{
 		ID: "C06",
 		Rule: wgRule + "Differential oracle: identical verdict and identical canonical dump (weights, wildcard sets, edge kinds, conditions; operators identified structurally) on all schedules; " +
 			"also under every permutation of the type-definition list, and identical relation weights under every permutation of the operands of each union/intersection. " +
-			"Repeated invocations: every ordered pair over ~90 mixed models built in a row on ONE builder value - the second result must equal a fresh builder's. " +
+			"Repeated invocations: every ordered pair over ~100 mixed models built in a row on ONE builder value - the second result must equal a fresh builder's. " +
 			"Concurrent builds are covered by C13's interleaving exploration. states = distinct dumps, non-trivial = distinct models",
 		Assume:    wgAssume,
 		Technique: "exhaustive exploration of map-iteration schedules and input permutations with a differential oracle",
@@ -540,7 +574,11 @@ func init() {
 			rt.Run(nil, nil, func() { d0 = wgBuild(pm) })
 			a, b := wgDump(rg, d0), wgDump(rg, o)
 			if a != b {
-				ctx.Violation("depends-on-map-order", "replayed schedule differs from the default schedule", cs, a, b)
+				kind, what := "depends-on-map-order", "replayed schedule differs from the default schedule"
+				if cs.Earlier != nil {
+					kind, what = "result-depends-on-earlier-build", "the used builder gives another result than a fresh one"
+				}
+				ctx.Violation(kind, what, cs, a, b)
 			}
 		},
 	})
